@@ -286,7 +286,8 @@ def main():
         for g in groups:
             if not gc[g][0]:
                 broken.append(("translator", f"tools/rs2coq.py group {g}: the source left the translated subset", gc[g][1]))
-        tb = vlib.coq_build(["-k"] + [f"Gen/Tie{g}.vo" for g in okg]) if okg else dict(ok=True, output="", wall=0)
+        # Gen/Run.vo (helpers of the translated-code run) depends on several Code files: keep it in step with them
+        tb = vlib.coq_build(["-k"] + [f"Gen/Tie{g}.vo" for g in okg] + ["Gen/Run.vo"]) if okg else dict(ok=True, output="", wall=0)
         bad = [g for g in okg if not vo_fresh(f"Gen/Tie{g}.v")]
         for g in bad:
             m = re.search(r'File "\./Gen/(?:Tie|Code)%s\.v", line (\d+).*?\n(Error:.*?)(?:\n\n|\nmake)' % g, tb["output"], flags=re.S)
